@@ -19,13 +19,20 @@ class C07(ProgProp):
 
 
     def gen(self, rng, tier, k):
-        if rng.random() < 0.15:
+        r0 = rng.random()
+        if r0 < 0.25:
             from .. import gen as g
-            spec = g.motif_shared_override(rng)
+            spec = g.motif_shared_override(rng) if r0 < 0.15 else g.motif_abandoned(rng)
             nv = self.variants_quick if tier == "quick" else self.variants_thorough
-            return {"spec": spec, "variants": [{"conv": ["call", "value", "wrapped"][i % 3], "prio": g.gen_prio(rng, spec["kinds"])}
+            case = {"spec": spec, "variants": [{"conv": ["call", "value", "wrapped"][i % 3], "prio": g.gen_prio(rng, spec["kinds"])}
                                                for i in range(nv)]}
-        return ProgProp.gen(self, rng, tier, k)
+        else:
+            case = ProgProp.gen(self, rng, tier, k)
+        # in 40% of the cases overrides are made through the public AsyncScopedValue.override()
+        # (no harness subclass: reads and restoration are still checked, the LIFO log is not)
+        if rng.random() < 0.4:
+            case["spec"]["plain_overrides"] = True
+        return case
 
 
 PROP = C07()
